@@ -512,6 +512,12 @@ Fixpoint outcome_map {A B} (f : A -> outcome B) (l : list A) : outcome (list B) 
   | x :: r => do y <- f x; do ys <- outcome_map f r; Ok (y :: ys)
   end.
 
+Fixpoint outcome_map_concat {A B} (f : A -> outcome (list B)) (l : list A) : outcome (list B) :=
+  match l with
+  | [] => Ok []
+  | x :: r => do y <- f x; do ys <- outcome_map_concat f r; Ok (y ++ ys)
+  end.
+
 (* what iter_changes reports: (time index, kind, rendering) per change *)
 Definition observe_signal (s : signal) : outcome (list (N * value_kind * list byte)) :=
   outcome_map (fun '(k, t) => do v <- get_value_at (s_data s) k; Ok (t, fst v, snd v))
